@@ -211,6 +211,13 @@ def coq_event(line):
             return "EvTamper %s None" % key
         if f[3] == "bytes":
             return "EvTamper %s (Some (OB %s))" % (key, _cb(_unhex(f[4])))
+        if f[3] == "staging":
+            code = {"H": "UHash", "D": "UData", "N": "UNames", "S": "UStaging", "I": "UIssuer", "C": "UCheckpoint", "R": "URoots"}
+            ups = []
+            for u in f[4].split(","):
+                k, c, dd = u.split(":")
+                ups.append("(mkUp %s %s %s)" % (_cb(k.encode()), code.get(c, "URoots"), _cb(_unhex(dd))))
+            return "EvTamper %s (Some (OS [%s]))" % (key, ";".join(ups))
         if f[3] == "cp":
             return "EvTamper %s (Some (OC (mkCp %s %s%%N %s (%s)%%Z %s%%N %s)))" % (
                 key, _cb(f[4].encode()), f[5], _cb(_unhex(f[6])), f[7], f[8], _cb(_unhex(f[9])))
